@@ -96,6 +96,25 @@ def boundary_strings():
         out.append(b"y" * n)
         out.append(b"(" + b"i" * (n - 2) + b")")
         out.append(b"ay" * (n // 2) + b"y" * (n % 2))
+    # mixed nests: the array and struct counters must both survive entering the other kind of container, at every
+    # split of the total, and as a non-first / non-last member of a sequence of types
+    for total in (31, 32, 33, 34, 40, 64, 65):
+        for m in sorted({0, 1, 2, total // 2, total - 2, total - 1, total}):
+            n = total - m
+            if m < 0 or n < 0:
+                continue
+            out.append(b"a" * m + b"(" + b"a" * n + b"y)")
+            out.append(b"(" * m + b"a" + b"(" * n + b"y" + b")" * (n + m))
+            out.append(b"(" * m + b"a" * n + b"y" + b")" * m)
+            out.append(b"a" * m + b"{s" + b"a" * n + b"y}" if m > 0 else b"y")
+            out.append(b"(" * m + b"a{s" + b"(" * n + b"y" + b")" * n + b"}" + b")" * m)
+    base = list(out)
+    for b in base:
+        if len(b) < 250:
+            out.append(b"y" + b)
+            out.append(b + b"y")
+            out.append(b"y" + b + b"y")
+            out.append(b + b)
     out += [b"", b"a{bv}", b"()", b"{sv}", b"a{vs}", b"a{(i)s}", b"a{ss", b"a{s}", b"a{sss}", b"a()", b"(a)", b"a{ay s}",
             b"aa{sv}", b"a{sa{sv}}", b"(a{sv}a{sv})", b"a{s(", b"}", b"{", b")", b"("]
     return [s for s in out]
@@ -135,6 +154,10 @@ def judge(impl_line, model_line):
         return "parser and validator disagree"
     if i["P"] == "ok" and i["R"] != i["hex"]:
         return "printing the parsed signature does not reproduce the input"
+    if i.get("W") != i["V"]:
+        return "SignatureWrapper::new / TryFrom give verdict %s where validate_signature gives %s" % (i.get("W"), i["V"])
+    if valid and i.get("X") != "ok":
+        return "SignatureIter::new_at_idx at a top-level boundary does not yield the remaining complete types (%s)" % i.get("X")
     if valid and i["S"] != m["S"]:
         return "the signature splitter does not yield the top-level complete types"
     if i["P"] != m["P"]:
@@ -156,7 +179,7 @@ def run(ctx):
                        "usize is 64 bit"]
     ctx.try_proof()
     exe = vlib.harness_build(["c07"])["c07"]
-    vlib.coq_make(["Sig/Iter.vo", "Sig/Validator.vo", "Sig/Parser.vo"])
+    vlib.coq_make(["Sig/Iter.vo", "Sig/Validator.vo", "Sig/Parser.vo", "Sig/Examples.vo"])
     drv = vlib.ocaml_build("c07")
 
     # ---------------- stream 1: corpus + boundaries + generated strings (explicit lines)
@@ -168,7 +191,13 @@ def run(ctx):
             if line and not line.startswith("#"):
                 strings.append(bytes.fromhex(line) if line != "-" else b"")
     ncorpus = len(strings)
-    strings += boundary_strings()
+    bnd = boundary_strings()
+    strings += bnd
+    for b in bnd:
+        for _ in range(2 if thorough else 1):
+            m = mutate(r, b)
+            if m is not None:
+                strings.append(m)
     ngen = 40000 if thorough else 4000
     for _ in range(ngen):
         s = gen_sig(r)
